@@ -79,6 +79,15 @@ Model/RadixOut.vos Model/RadixOut.vok Model/RadixOut.required_vos: Model/RadixOu
 Run/RunC11.vo Run/RunC11.glob Run/RunC11.v.beautified Run/RunC11.required_vo: Run/RunC11.v Base.vo Prim.vo Model/Core.vo Model/Shift.vo Model/AddSub.vo Model/Mul.vo Model/Div.vo Model/Bits.vo Model/RadixOut.vo Run/RunBase.vo
 Run/RunC11.vio: Run/RunC11.v Base.vio Prim.vio Model/Core.vio Model/Shift.vio Model/AddSub.vio Model/Mul.vio Model/Div.vio Model/Bits.vio Model/RadixOut.vio Run/RunBase.vio
 Run/RunC11.vos Run/RunC11.vok Run/RunC11.required_vos: Run/RunC11.v Base.vos Prim.vos Model/Core.vos Model/Shift.vos Model/AddSub.vos Model/Mul.vos Model/Div.vos Model/Bits.vos Model/RadixOut.vos Run/RunBase.vos
-Properties/C11.vo Properties/C11.glob Properties/C11.v.beautified Properties/C11.required_vo: Properties/C11.v Base.vo Prim.vo
-Properties/C11.vio: Properties/C11.v Base.vio Prim.vio
-Properties/C11.vos Properties/C11.vok Properties/C11.required_vos: Properties/C11.v Base.vos Prim.vos
+Properties/C11.vo Properties/C11.glob Properties/C11.v.beautified Properties/C11.required_vo: Properties/C11.v Base.vo Prim.vo Model/Digit.vo Model/Core.vo Model/Shift.vo Model/AddSub.vo Model/Mul.vo Model/Div.vo Model/Bits.vo Model/RadixOut.vo Proofs/RadixSpec.vo Proofs/RadixOutDeps.vo Proofs/RadixOut.vo
+Properties/C11.vio: Properties/C11.v Base.vio Prim.vio Model/Digit.vio Model/Core.vio Model/Shift.vio Model/AddSub.vio Model/Mul.vio Model/Div.vio Model/Bits.vio Model/RadixOut.vio Proofs/RadixSpec.vio Proofs/RadixOutDeps.vio Proofs/RadixOut.vio
+Properties/C11.vos Properties/C11.vok Properties/C11.required_vos: Properties/C11.v Base.vos Prim.vos Model/Digit.vos Model/Core.vos Model/Shift.vos Model/AddSub.vos Model/Mul.vos Model/Div.vos Model/Bits.vos Model/RadixOut.vos Proofs/RadixSpec.vos Proofs/RadixOutDeps.vos Proofs/RadixOut.vos
+Proofs/RadixSpec.vo Proofs/RadixSpec.glob Proofs/RadixSpec.v.beautified Proofs/RadixSpec.required_vo: Proofs/RadixSpec.v Base.vo
+Proofs/RadixSpec.vio: Proofs/RadixSpec.v Base.vio
+Proofs/RadixSpec.vos Proofs/RadixSpec.vok Proofs/RadixSpec.required_vos: Proofs/RadixSpec.v Base.vos
+Proofs/RadixOutDeps.vo Proofs/RadixOutDeps.glob Proofs/RadixOutDeps.v.beautified Proofs/RadixOutDeps.required_vo: Proofs/RadixOutDeps.v Base.vo Prim.vo Model/Digit.vo Model/Core.vo Model/Shift.vo Model/AddSub.vo Model/Mul.vo Model/Div.vo Model/Bits.vo
+Proofs/RadixOutDeps.vio: Proofs/RadixOutDeps.v Base.vio Prim.vio Model/Digit.vio Model/Core.vio Model/Shift.vio Model/AddSub.vio Model/Mul.vio Model/Div.vio Model/Bits.vio
+Proofs/RadixOutDeps.vos Proofs/RadixOutDeps.vok Proofs/RadixOutDeps.required_vos: Proofs/RadixOutDeps.v Base.vos Prim.vos Model/Digit.vos Model/Core.vos Model/Shift.vos Model/AddSub.vos Model/Mul.vos Model/Div.vos Model/Bits.vos
+Proofs/RadixOut.vo Proofs/RadixOut.glob Proofs/RadixOut.v.beautified Proofs/RadixOut.required_vo: Proofs/RadixOut.v Base.vo Prim.vo Model/Digit.vo Model/Core.vo Model/Shift.vo Model/AddSub.vo Model/Mul.vo Model/Div.vo Model/Bits.vo Model/RadixOut.vo Proofs/RadixSpec.vo Proofs/RadixOutDeps.vo
+Proofs/RadixOut.vio: Proofs/RadixOut.v Base.vio Prim.vio Model/Digit.vio Model/Core.vio Model/Shift.vio Model/AddSub.vio Model/Mul.vio Model/Div.vio Model/Bits.vio Model/RadixOut.vio Proofs/RadixSpec.vio Proofs/RadixOutDeps.vio
+Proofs/RadixOut.vos Proofs/RadixOut.vok Proofs/RadixOut.required_vos: Proofs/RadixOut.v Base.vos Prim.vos Model/Digit.vos Model/Core.vos Model/Shift.vos Model/AddSub.vos Model/Mul.vos Model/Div.vos Model/Bits.vos Model/RadixOut.vos Proofs/RadixSpec.vos Proofs/RadixOutDeps.vos
